@@ -7,6 +7,7 @@ package main
 import (
 	"fmt"
 	"go/types"
+	"math/big"
 	"sort"
 	"strings"
 )
@@ -110,6 +111,10 @@ type machine struct {
 
 	varSeq map[string]int
 
+	model       map[string]uint64
+	modelValid  bool
+	pcUnchecked bool
+
 	// threads
 	threads []*thread
 	cur     *thread
@@ -121,7 +126,11 @@ type machine struct {
 	wgs     map[*value]*wgState
 	funcs   map[string]bool // repo functions executed
 
+	summarize      map[string]bool
+	sumCache       map[string]value
+	sumUsed        map[string]bool
 	mapOrderNondet bool
+	mapOrderFuncs  []string
 	schedNondet    bool
 	preemptBudget  int
 	panicSite      string
@@ -169,13 +178,20 @@ func (m *machine) query(extra *term) satResult {
 		sb.WriteString("(push 1)\n")
 		fmt.Fprintf(&sb, "(assert %s)\n", r)
 	}
-	s.send(sb.String())
+	txt := sb.String()
+	if !s.hard && (strings.Contains(txt, "(bvudiv ") || strings.Contains(txt, "(bvurem ") || strings.Contains(txt, "(bvsdiv ") || strings.Contains(txt, "(bvsrem ") || strings.Contains(txt, "(_ BitVec 128) (bvmul ")) {
+		s.hard = true
+	}
+	s.send(txt)
 	res, detail := s.checkSat(len(m.tt.ufOrd) > 0)
 	m.nQueries++
 	if res == resUnknown {
 		m.w.lastUnknown = detail
 	}
 	m.w.inQueryPush = extra != nil
+	if extra == nil && res == resSat {
+		m.pcUnchecked = false
+	}
 	return res
 }
 
@@ -184,6 +200,76 @@ func (m *machine) popQuery() {
 		m.w.solver.send("(pop 1)\n")
 		m.w.inQueryPush = false
 	}
+}
+
+// ---- model cache: a model of the current path condition, if known
+
+// evalModel evaluates c under the cached model: 1 true, 0 false, -1 unknown.
+func (m *machine) evalModel(c *term) int {
+	if !m.modelValid {
+		return -1
+	}
+	e := &evalCtx{vars: m.model, memo: map[*term]*big.Int{}}
+	v := e.eval(c)
+	if v == nil {
+		return -1
+	}
+	if v.Sign() != 0 {
+		return 1
+	}
+	return 0
+}
+
+// fetchModel reads the values of all declared variables from the solver's current sat context.
+func (m *machine) fetchModel() {
+	s := m.w.solver
+	var names []string
+	var vars []*term
+	for _, v := range m.tt.vars {
+		if v.emitted == s.epoch {
+			names = append(names, smtSym(v.name))
+			vars = append(vars, v)
+		}
+	}
+	m.model = map[string]uint64{}
+	m.modelValid = false
+	if len(names) > 0 {
+		vals, err := s.getValues(names)
+		if err != nil {
+			return
+		}
+		for i, v := range vars {
+			m.model[v.name] = vals[names[i]]
+		}
+	}
+	// variables not yet mentioned to the solver are unconstrained: 0
+	for _, v := range m.tt.vars {
+		if _, ok := m.model[v.name]; !ok {
+			m.model[v.name] = 0
+		}
+	}
+	m.modelValid = true
+}
+
+// noteAdded keeps the model cache consistent after c was appended to the path condition.
+func (m *machine) noteAdded(c *term) {
+	if m.modelValid && m.evalModel(c) != 1 {
+		m.modelValid = false
+	}
+	// new variables default to 0 in evalModel through the map miss -> handled in eval as unknown;
+	// make them explicit so later evaluations agree
+}
+
+func (m *machine) addPC(c *term) {
+	if m.modelValid {
+		for _, v := range m.tt.vars {
+			if _, ok := m.model[v.name]; !ok {
+				m.model[v.name] = 0
+			}
+		}
+	}
+	m.pc = append(m.pc, c)
+	m.noteAdded(c)
 }
 
 // ---- decisions
@@ -201,27 +287,98 @@ func (m *machine) decide(c *term, what string) bool {
 		ch := m.prefix[pos]
 		m.decs = append(m.decs, decisionRec{kind: 'b', arity: 2, chosen: ch, what: what})
 		if ch == 1 {
+			m.addPC(c)
+			return true
+		}
+		m.addPC(m.tt.not(c))
+		return false
+	}
+	// new decision
+	unknown := func() {
+		m.abort(abortInconclusive, "solver unknown at branch "+what+": "+m.w.lastUnknown)
+	}
+	if m.modelValid {
+		for _, v := range m.tt.vars {
+			if _, ok := m.model[v.name]; !ok {
+				m.model[v.name] = 0
+			}
+		}
+	}
+	nc := m.tt.not(c)
+	switch m.evalModel(c) {
+	case 1:
+		// the cached model witnesses PC ∧ c
+		r := m.query(nc)
+		m.popQuery()
+		switch r {
+		case resUnknown:
+			unknown()
+		case resUnsat:
+			m.decs = append(m.decs, decisionRec{kind: 'b', arity: 2, chosen: 1, forced: true, what: what})
 			m.pc = append(m.pc, c)
 			return true
 		}
-		m.pc = append(m.pc, m.tt.not(c))
-		return false
+		m.alts = append(m.alts, append(m.curPrefix(), 0))
+		m.decs = append(m.decs, decisionRec{kind: 'b', arity: 2, chosen: 1, what: what})
+		m.pc = append(m.pc, c)
+		return true
+	case 0:
+		// the cached model witnesses PC ∧ ¬c
+		r := m.query(c)
+		switch r {
+		case resUnknown:
+			m.popQuery()
+			unknown()
+		case resUnsat:
+			m.popQuery()
+			m.decs = append(m.decs, decisionRec{kind: 'b', arity: 2, chosen: 0, forced: true, what: what})
+			m.pc = append(m.pc, nc)
+			return false
+		}
+		m.fetchModel() // model of PC ∧ c
+		m.popQuery()
+		m.alts = append(m.alts, append(m.curPrefix(), 0))
+		m.decs = append(m.decs, decisionRec{kind: 'b', arity: 2, chosen: 1, what: what})
+		m.pc = append(m.pc, c)
+		return true
 	}
-	// new decision: ask the solver
+	// no usable model
 	r1 := m.query(c)
-	m.popQuery()
 	if r1 == resUnknown {
-		m.abort(abortInconclusive, "solver unknown at branch "+what+": "+m.w.lastUnknown)
+		m.popQuery()
+		unknown()
 	}
 	if r1 == resUnsat {
+		m.popQuery()
+		if m.pcUnchecked {
+			// the path condition itself may be infeasible (lazy assumptions)
+			r2 := m.query(nc)
+			if r2 == resSat {
+				m.fetchModel()
+			}
+			m.popQuery()
+			if r2 == resUnknown {
+				unknown()
+			}
+			if r2 == resUnsat {
+				m.abort(abortInfeasible, "assumptions infeasible")
+			}
+			m.pcUnchecked = false
+		}
 		m.decs = append(m.decs, decisionRec{kind: 'b', arity: 2, chosen: 0, forced: true, what: what})
-		m.pc = append(m.pc, m.tt.not(c))
+		m.pc = append(m.pc, nc)
+		if m.modelValid && m.evalModel(nc) != 1 {
+			m.modelValid = false
+		}
 		return false
 	}
-	r2 := m.query(m.tt.not(c))
+	m.pcUnchecked = false
+	m.fetchModel() // model of PC ∧ c
+	m.popQuery()
+	r2 := m.query(nc)
 	m.popQuery()
 	if r2 == resUnknown {
-		m.abort(abortInconclusive, "solver unknown at branch "+what+": "+m.w.lastUnknown)
+		unknown()
 	}
 	if r2 == resUnsat {
 		m.decs = append(m.decs, decisionRec{kind: 'b', arity: 2, chosen: 1, forced: true, what: what})
@@ -229,9 +386,7 @@ func (m *machine) decide(c *term, what string) bool {
 		return true
 	}
 	// both feasible: fork. Continue with true, push false.
-	alt := m.curPrefix()
-	alt = append(alt, 0)
-	m.alts = append(m.alts, alt)
+	m.alts = append(m.alts, append(m.curPrefix(), 0))
 	m.decs = append(m.decs, decisionRec{kind: 'b', arity: 2, chosen: 1, what: what})
 	m.pc = append(m.pc, c)
 	return true
@@ -271,7 +426,8 @@ func (m *machine) choose(n int, what string) int {
 	return 0
 }
 
-// assume adds c to the path condition; aborts the path if infeasible.
+// assume adds c to the path condition. Feasibility is established lazily: by the
+// cached model, at the next decision, or at the end of the path.
 func (m *machine) assume(c *term) {
 	if c.isConst() {
 		if c.cv == 0 {
@@ -279,17 +435,26 @@ func (m *machine) assume(c *term) {
 		}
 		return
 	}
-	m.pc = append(m.pc, c)
-	// feasibility is checked lazily: at the next decision or at path end.
-	if len(m.decs) >= len(m.prefix) {
-		r := m.query(nil)
-		if r == resUnsat {
-			m.abort(abortInfeasible, "assumption infeasible")
-		}
-		if r == resUnknown {
-			m.abort(abortInconclusive, "solver unknown at assume: "+m.w.lastUnknown)
-		}
+	m.addPC(c)
+	if !m.modelValid {
+		m.pcUnchecked = true
 	}
+}
+
+// ensureFeasible settles a pending feasibility check of the path condition.
+func (m *machine) ensureFeasible() {
+	if !m.pcUnchecked {
+		return
+	}
+	r := m.query(nil)
+	switch r {
+	case resUnsat:
+		m.abort(abortInfeasible, "assumptions infeasible")
+	case resUnknown:
+		m.abort(abortInconclusive, "solver unknown at feasibility check: "+m.w.lastUnknown)
+	}
+	m.fetchModel()
+	m.pcUnchecked = false
 }
 
 // concretize enumerates the feasible values of a symbolic integer (as decisions).
@@ -374,11 +539,10 @@ func (m *machine) assert(c value, label string) {
 			m.recordViolationInCtx(label, "assert")
 			m.popQuery()
 			// continue under the assumption that the assertion holds
-			m.pc = append(m.pc, c.t)
-			if len(m.decs) >= len(m.prefix) {
-				if m.query(nil) != resSat {
-					m.abort(abortViolation, label)
-				}
+			m.addPC(c.t)
+			m.pcUnchecked = true
+			if m.query(nil) != resSat {
+				m.abort(abortViolation, label)
 			}
 		}
 	default:
